@@ -408,6 +408,51 @@ def script_terms(ast):
     return terms, aggs
 
 
+def script_keys(ast):
+    """the text the REAL AttrSelector.String() printed for every term, in the order of TraceqlKey.script_terms; None when the harness did not send it"""
+    keys = []
+
+    def exp(e):
+        if e is None:
+            return
+        if e["head"] is not None:
+            keys.append(e["head"].get("key"))
+        exp(e["chead"])
+        exp(e["tail"])
+    s = ast
+    while s is not None:
+        exp(s["head"]["attr"])
+        s = s["tail"]
+    return keys
+
+
+def key_collisions(ast):
+    """pairs of terms of ONE selector that the real String() prints alike although their captured tokens differ: analyzeCond merges them"""
+    out = []
+
+    def exp(e, acc):
+        if e is None:
+            return
+        if e["head"] is not None:
+            h = e["head"]
+            acc.append((h.get("key"), (h["label"], h["op"], h["val"]["t"], h["val"]["f"], h["val"]["s"])))
+        exp(e["chead"], acc)
+        exp(e["tail"], acc)
+    s = ast
+    while s is not None:
+        acc = []
+        exp(s["head"]["attr"], acc)
+        seen = {}
+        for k, tok in acc:
+            if k is None:
+                continue
+            if k in seen and seen[k] != tok:
+                out.append((seen[k], tok))
+            seen.setdefault(k, tok)
+        s = s["tail"]
+    return out
+
+
 def strip_scope(label):
     for p in ("span.", "resource.", "."):
         if label.startswith(p):
@@ -478,9 +523,14 @@ def gen_db(c, rnd):
     def sat(op, v):
         """an attribute value that makes the term true, where that is easy to say"""
         if v["s"] is not None:
-            if v["unq"] is None or op in ("=~", "!~"):
+            if v["unq"] is None:
                 return None
-            u = unhex(v["unq"]).decode("utf8", "replace")
+            u = unhex(v["unq"]).decode("utf8", "surrogateescape")
+            if op in ("=~", "!~"):
+                # a pattern without metacharacters matches itself (and the values that contain it)
+                if not u or re.search(r"[\\.+*?()|\[\]{}^$]", u):
+                    return None
+                return u if op == "=~" else "zz"
             return u if op == "=" else (u + "_" if op == "!=" else None)
         if v["f"]:
             try:
@@ -540,15 +590,81 @@ def gen_db(c, rnd):
     return rows
 
 
+def same_slot_groups(ast):
+    """per selector: the groups of at least two terms with the same label and operator and different value tokens (what a printer might conflate)"""
+    groups = []
+
+    def exp(e, acc):
+        if e is None:
+            return
+        if e["head"] is not None:
+            h = e["head"]
+            acc.setdefault((h["label"], h["op"]), []).append(h["val"])
+        exp(e["chead"], acc)
+        exp(e["tail"], acc)
+    s = ast
+    while s is not None:
+        acc = {}
+        exp(s["head"]["attr"], acc)
+        for (label, op), vals in sorted(acc.items()):
+            distinct = []
+            for v in vals:
+                if all((v["t"], v["f"], v["s"]) != (w["t"], w["f"], w["s"]) for w in distinct):
+                    distinct.append(v)
+            if len(distinct) >= 2:
+                groups.append((label, op, distinct))
+        s = s["tail"]
+    return groups
+
+
+def gen_sep_db(c, rnd):
+    """the SEPARATING database of a query with several conditions on one attribute under one operator: one trace per literal, one span
+    each, carrying exactly that literal as the attribute's value (plus one trace with none of them).  If the planner identified two of the
+    conditions, the trace of the second literal is lost (=, =~ under ||) or wrongly kept (!=, !~ under &&).  None when there is no such group."""
+    import datetime
+    groups = same_slot_groups(c["ast"])
+    if not groups:
+        return None
+    ctx = c["ctx"]
+    rows = []
+    n = 0
+    width = ctx["to_ns"] - ctx["from_ns"]
+    for label, op, vals in groups:
+        k = strip_scope(label)
+        if k is None:
+            continue
+        lits = []
+        for v in vals:
+            if v["s"] is not None and v["unq"] is not None:
+                lits.append(unhex(v["unq"]).decode("utf8", "surrogateescape"))
+            elif v["f"]:
+                # as in gen_db: stored numbers keep at most six decimals (the evaluator reads Float64 as exact rationals; a stored value with
+                # more digits than a float64 keeps would be judged differently from ClickHouse)
+                from decimal import Decimal, InvalidOperation
+                try:
+                    lits.append(dec_str(Decimal(v["f"])))
+                except InvalidOperation:
+                    pass
+        for val in lits + ["zz-other"]:
+            n += 1
+            ts = ctx["from_ns"] + (width * n) // 40 + rnd.randrange(0, 1000)
+            date = datetime.datetime.fromtimestamp(ts // 10**9, datetime.timezone.utc).strftime("%Y-%m-%d")
+            rows.append({"date": date, "key": k, "val": val, "trace": "t%d" % n, "span": "s1", "ts": ts, "dur": 1000})
+    return rows or None
+
+
 def conv_db(rows):
     return coq_list(["{| r_date := %s; r_key := %s; r_val := %s; r_trace := %s; r_span := %s; r_ts := (%d)%%Z; r_dur := (%d)%%Z |}" % (
         cs(r["date"]), cs(r["key"]), cs(r["val"]), cs(r["trace"]), cs(r["span"]), r["ts"], r["dur"]) for r in rows])
 
 
 def case_to_coq(c, stats, full=True):
-    return "{| c_id := %d; c_q := %s; c_mode := %s; c_ctx := %s; c_obs := %s; c_dbs := %s |}" % (
+    keys = script_keys(c["ast"])
+    if any(k is None for k in keys):
+        raise ValueError("the harness did not print AttrSelector.String() for a term")
+    return "{| c_id := %d; c_q := %s; c_mode := %s; c_ctx := %s; c_obs := %s; c_dbs := %s; c_keys := %s |}" % (
         c["id"], conv_script(c["ast"]), conv_mode(c), conv_ctx(c["ctx"]), coq_list(conv_obs(c, stats, full)),
-        coq_list([conv_db(d) for d in c.get("dbs", [])]))
+        coq_list([conv_db(d) for d in c.get("dbs", [])]), coq_list([cs(unhex(k)) for k in keys]))
 
 
 HEADER = ("From Coq Require Import List ZArith String Ascii Bool Uint63.\n"
@@ -556,21 +672,24 @@ HEADER = ("From Coq Require Import List ZArith String Ascii Bool Uint63.\n"
           "Import ListNotations.\nOpen Scope string_scope.\n")
 
 
-def eval_text(ck, name, cases, stats, full=lambda c: True):
-    """returns (mismatch pairs, syntax violation ids, semantic violation pairs, raw out)"""
+def build_text(cases, stats, full=lambda c: True):
+    """the Coq file of one shard (the interner is per file)"""
     global INTERN
     INTERN = Interner()
     defs = []
     for c in cases:
         defs.append("Definition c%d : case := %s." % (c["id"], case_to_coq(c, stats, full(c))))
-    txt = (HEADER + INTERN.definitions() + "\n" + "\n".join(defs) + "\nDefinition cases : list case := " + coq_list(["c%d" % c["id"] for c in cases]) + ".\n"
-           "Definition M := Eval vm_compute in mismatches cases.\nPrint M.\n"
-           "Definition V := Eval vm_compute in spec_violations cases.\nPrint V.\n"
-           "Definition W := Eval vm_compute in sem_violations cases.\nPrint W.\n"
-           "Definition SC := Eval vm_compute in scope_counts cases.\nPrint SC.\n"
-           "Definition CC := Eval vm_compute in chain_count cases.\nPrint CC.\n"
-           "Definition PC := Eval vm_compute in portion_count cases.\nPrint PC.\n")
-    rc, out = ck.coq_eval(name, txt)
+    return (HEADER + INTERN.definitions() + "\n" + "\n".join(defs) + "\nDefinition cases : list case := " + coq_list(["c%d" % c["id"] for c in cases]) + ".\n"
+            "Definition M := Eval vm_compute in mismatches cases.\nPrint M.\n"
+            "Definition V := Eval vm_compute in spec_violations cases.\nPrint V.\n"
+            "Definition W := Eval vm_compute in sem_violations cases.\nPrint W.\n"
+            "Definition SC := Eval vm_compute in scope_counts cases.\nPrint SC.\n"
+            "Definition CC := Eval vm_compute in chain_count cases.\nPrint CC.\n"
+            "Definition PC := Eval vm_compute in portion_count cases.\nPrint PC.\n")
+
+
+def parse_out(name, rc, out, stats):
+    """returns (mismatch pairs, syntax violation ids, semantic violation pairs, raw out)"""
     if rc != 0:
         return None, None, None, out
     flat = " ".join(out.split())
@@ -592,6 +711,21 @@ def eval_text(ck, name, cases, stats, full=lambda c: True):
             stats["scope_portion"] = stats.get("scope_portion", 0) + int(pc.group(1))
     ids = [int(x) for x in re.findall(r"-?\d+", v.group(1))]
     return prs(m.group(1)), ids, prs(w.group(1)), out
+
+
+def eval_text(ck, name, cases, stats, full=lambda c: True):
+    txt = build_text(cases, stats, full)
+    rc, out = ck.coq_eval(name, txt)
+    return parse_out(name, rc, out, stats)
+
+
+def eval_shards(ck, shards, stats, full):
+    """the shards of one pass, their Coq files built one after the other (shared interner) and compiled side by side"""
+    from concurrent.futures import ThreadPoolExecutor
+    texts = [(name, build_text(cases, stats, full)) for name, cases in shards]
+    with ThreadPoolExecutor(max_workers=4) as ex:
+        outs = list(ex.map(lambda nt: ck.coq_eval(nt[0], nt[1]), texts))
+    return [parse_out(name, rc, out, stats) for (name, _), (rc, out) in zip(texts, outs)]
 
 
 def qtext(c):
@@ -633,7 +767,12 @@ def run_text(ck):
         ok = c["mode"] == "plan" and c.get("obs") and all("sql" in o for o in c["obs"])
         rnd = random.Random(ck.seed * 1000003 + c["id"])
         c["dbs"] = ((c.get("dbs") or []) + [gen_db(c, rnd) for _ in range(ck.n(2, 4))]) if ok else []
-    shard = 400
+        if ok:
+            sep = gen_sep_db(c, rnd)
+            if sep:
+                c["dbs"].append(sep)
+                c["sep_db"] = True
+    shard = ck.n(200, 400)
     bad_dump = []
     usable = []
     for c in parsed:
@@ -654,8 +793,8 @@ def run_text(ck):
     # the corpus and a sample travel with their text and object tree; the bulk with the fingerprint of the text only
     nfull = ck.n(40, 400)
     fullids = set(c["id"] for c in usable if c["id"] >= 1000000) | set(c["id"] for c in usable[:nfull])
-    for k in range(0, len(usable), shard):
-        m, v, w, out = eval_text(ck, "C11_text_%d" % (k // shard), usable[k:k + shard], stats, full=lambda c: c["id"] in fullids)
+    shards = [("C11_text_%d" % (k // shard), usable[k:k + shard]) for k in range(0, len(usable), shard)]
+    for m, v, w, out in eval_shards(ck, shards, stats, lambda c: c["id"] in fullids):
         if m is None:
             ck.obligation("query cases evaluated inside Coq", False, out[-1500:])
             return
@@ -690,11 +829,24 @@ def run_text(ck):
         sem = [x for x in sem if x[0] not in redo] + w
     byid = {c["id"]: c for c in cases}
     codes = {1: "outcome class (statement / error / panic)", 2: "SQL text of the model's plan", 3: "object tree does not print to the observed text", 4: "library values",
-             5: "numeric literals as printed parse back to the query's numbers"}
-    for code in (1, 2, 3, 4, 5):
+             5: "numeric literals as printed parse back to the query's numbers",
+             6: "every term the parser built has the lexical shape from which keys_ok is proved (TraceqlKey.terms_grammar: label without blank, one of quoted token / number / duration; library values functions of the tokens)",
+             7: "the de-duplication key of analyzeCond: the model's attr_sel_string is the text the real AttrSelector.String() printed, for every term"}
+    for code in (1, 2, 3, 4, 5, 6, 7):
         ids = [i for i, cd in mism if cd == code]
         ck.obligation("correspondence on %d queries: %s" % (len(usable), codes[code]), not ids,
                       "ids %s e.g. %r" % (ids[:8], qtext(byid[ids[0]]) if ids else ""))
+    # the key of analyzeCond, seen from outside the model: two terms of one selector whose captured tokens differ must not print alike
+    coll = [(c["id"], key_collisions(c["ast"])) for c in parsed]
+    coll = [(i, x) for i, x in coll if x]
+    nterms = sum(len(script_keys(c["ast"])) for c in parsed)
+    longest = max([len(unhex(k)) for c in parsed for k in script_keys(c["ast"]) if k] + [0])
+    groups = sum(1 for c in parsed if same_slot_groups(c["ast"]))
+    ck.obligation("AttrSelector.String() separates the distinct terms of every selector (%d terms, longest key %d bytes, %d queries with several "
+                  "literals under one label and operator)" % (nterms, longest, groups), not coll,
+                  "ids %s e.g. %r merged with %r in %r" % ([i for i, _ in coll[:8]], coll[0][1][0][1], coll[0][1][0][0], qtext(byid[coll[0][0]])[:300]) if coll else "")
+    stats["key_terms"], stats["key_longest"], stats["key_groups"] = nterms, longest, groups
+    stats["key_collisions"] = [i for i, _ in coll]
     return cases, parsed, usable, mism, viol, sem, stats, byid
 
 
@@ -810,13 +962,31 @@ def run(ck):
         "C11: TraceqlSem.v's evaluator is a model of the ClickHouse subset the planners emit (no ClickHouse binary here): WHERE/GROUP BY/HAVING/ORDER BY/LIMIT, any/max/groupArray/groupBitOr/anyIf/avgIf.., bitShiftLeft/bitAnd, toFloat64OrNull, match, INTERSECT/UNION ALL, ARRAY JOIN; Float64 as exact rationals",
         "C11: strconv.ParseFloat+FloatVal.String (FormatFloat 'f' -1), time.ParseDuration and json unquoting are modelled on a stated domain (<=15 significant digits; plain ASCII) and taken from the Go library (called by the harness) outside it",
     ]
-    ck.coq_props()
-    okm, out = ck.coq_make(["model/TraceqlCase.vo", "model/TraceqlPortions.vo", "proofs/TraceqlScope.vo"])
+    # Everything is built first; then the props file is re-compiled for its Print Assumptions output (about 30 s: 39 theorems over a large
+    # dependency closure) on a thread of its own while the harnesses and the case files run.  The thread reports into a copy of the
+    # checker whose obligations are put in front of the others afterwards, so the evidence keeps one deterministic order.
+    import copy
+    import threading
+    okm, out = ck.coq_make(["props/C11.vo", "model/TraceqlCase.vo", "model/TraceqlPortions.vo", "proofs/TraceqlScope.vo"])
     if not okm:
+        ck.coq_props()
         ck.obligation("model/TraceqlCase.v and proofs/TraceqlScope.v compile", False, out[-1500:])
         return
-    run_loop(ck)
-    r = run_text(ck)
+    ck2 = copy.copy(ck)
+    ck2.obligations, ck2.assumptions, ck2.checker_cmds = [], [], []
+    th = threading.Thread(target=ck2.coq_props)
+    th.start()
+    try:
+        run_loop(ck)
+        r = run_text(ck)
+    finally:
+        th.join()
+        ck.obligations[:0] = ck2.obligations
+        ck.assumptions[:0] = ck2.assumptions
+        ck.checker_cmds[:0] = ck2.checker_cmds
+        ck.theorems = getattr(ck2, "theorems", [])
+        if hasattr(ck2, "build_log"):
+            ck.build_log = ck2.build_log
     if r is None:
         return
     cases, parsed, usable, mism, viol, sem, stats, byid = r
